@@ -109,6 +109,20 @@ def sc_inbound(w, n, kind):
     w.peer_close(c)
 
 
+def sc_inbound_experimental(w, n, kind):
+    """requests answered with Experimental-Result instead of Result-Code"""
+    c = w.handshake_in("peer1.example", auth=[4])
+    old = w.behaviour_fn
+    w.behaviour_fn = lambda rec: "answer-experimental"
+    for i in range(n):
+        w.feed_msg(c, {"k": "REQ", "host": "peer1.example", "hbh": 0x1000 + i, "e2e": 0x1000 + i})
+        if kind == "threading" and i % 20 == 19:
+            w.advance(1)
+    w.advance(2)
+    w.behaviour_fn = old
+    w.peer_close(c)
+
+
 def sc_inbound_T(w, n, kind):
     c = w.handshake_in("peer1.example", auth=[4])
     for i in range(n):
@@ -324,6 +338,7 @@ def sc_burst_then_node_close(w, n, kind):
 SCENARIOS = {
     "inbound-request-answer": (sc_inbound, {}),
     "inbound-T-flag-repeats": (sc_inbound_T, {}),
+    "inbound-answer-experimental-result": (sc_inbound_experimental, {}),
     "rejected-requests": (sc_rejected, {}),
     "outbound-request-answer": (sc_outbound, {}),
     "outbound-request-timeout": (sc_outbound_timeout, {}),
@@ -415,7 +430,7 @@ def shard_main(shard, nshards, tier, scale):
     jobs = []
     for nm in SCENARIOS:
         for kind in ("basic", "threading"):
-            if kind == "threading" and nm not in ("inbound-request-answer", "inbound-T-flag-repeats", "rejected-requests",
+            if kind == "threading" and nm not in ("inbound-request-answer", "inbound-answer-experimental-result", "inbound-T-flag-repeats", "rejected-requests",
                                                   "conn-closed-by-peer", "conn-reset", "newcomers-while-stopping"):
                 continue
             for n in Ns:
